@@ -224,6 +224,45 @@ def r7_accept_permit(chk):
         r.require(cfg, 2, "accept hand-off paths")
 
 
+def r8_spillover_fifo(chk):
+    r = chk.rule("R8", "the io_uring handler's stash keeps per-connection order", "T3 guarded-by + T10 queue-end discipline",
+                 "ZmtpUringHandler hands a freshly decoded batch to the socket's queue only under spillover.is_empty() == true (otherwise it is appended with push_back); "
+                 "the drain sends what pop_front returned and puts a refused batch back with push_front: the same FIFO the Tokio session keeps with its ingress_buffer")
+    for cfg, prog in chk.configs():
+        hb = [b for b in prog.bodies.values() if b.impl_self and b.impl_self.endswith("zmtp_handler::ZmtpUringHandler") and "::tests" not in b.path]
+        if not hb:
+            if cfg in ("full-linux",):
+                r.bad(cfg, "anchor|ZmtpUringHandler", "core/src/io_uring_backend/zmtp_handler.rs", "handler bodies not found")
+            continue
+        n = 0
+        for b in hb:
+            sends = [c for c in b.calls if c.name in ("try_send_sync", "try_send", "send", "try_send_batch", "send_batch") and "ingress_sender" in (c.recv() or "")]
+            for c in sends:
+                n += 1
+                arg = b.provenance(c.args[1]) if len(c.args) > 1 else ""
+                idx = [x.blk for x in sends].index(c.blk)
+                if re.search(r"pop_front\(self\.spillover\)", arg):
+                    key = "%s|drain sends the oldest stashed batch and puts a refusal back in front" % short(b.path)
+                    backs = [x for x in b.calls if x.name in ("push_back", "push_front", "insert") and "spillover" in (x.recv() or "") and x.blk in b.reachable([c.blk])]
+                    wrong = [x for x in backs if x.name != "push_front"]
+                    if wrong or not backs:
+                        r.bad(cfg, key, where(b, (wrong or [c])[0].blk), "a batch refused during the drain is not put back at the front of the stash (found %s): it would be delivered after newer ones" % ([x.name for x in backs] or "no put-back"))
+                    else:
+                        r.ok(cfg, key, where(b, c.blk), "pop_front -> send -> push_front on refusal")
+                else:
+                    key = "%s|fresh batch #%d goes to the queue only when nothing is stashed" % (short(b.path), idx)
+                    gs = b.guards(c.blk)
+                    if any(g.atom[0] == "call" and g.atom[1].name == "is_empty" and "spillover" in (g.atom[1].recv() or "") and g.truth is True for g in gs):
+                        backs = [x for x in b.calls if x.name in ("push_front", "insert") and "spillover" in (x.recv() or "")]
+                        if backs:
+                            r.bad(cfg, key, where(b, backs[0].blk), "a fresh batch is stashed with %s: it overtakes the batches stashed before it" % backs[0].name)
+                        else:
+                            r.ok(cfg, key, where(b, c.blk), "guarded by spillover.is_empty(); stashes use push_back")
+                    else:
+                        r.bad(cfg, key, where(b, c.blk), "a freshly decoded batch can be handed to the socket's queue while older batches of the same connection are still stashed in `spillover`: per-connection order differs from the Tokio backend")
+        r.require(cfg, 2 if cfg in ("full-linux", "full") else 0, "sends towards the socket's queue in the io_uring handler")
+
+
 def run(chk):
     chk.undecided = ["observational equivalence of the two back-ends over all workloads (differential, dynamic)", "each fd closed exactly once (decided only as who-may-call)"]
     r1_one_engine(chk)
@@ -232,3 +271,4 @@ def run(chk):
     r5_ring_buffers(chk)
     r6_who_closes(chk)
     r7_accept_permit(chk)
+    r8_spillover_fifo(chk)
